@@ -12,6 +12,11 @@ DESCR = {
                          "generated/DriverGen.v; the refinement generated code -> model (proofs/DriverTie.v, for all arguments) is "
                          "compiled with the property's theorem file; one case per translated function"),
     "translate_core": ("G:tracker source translator", "see core_units.g_unit"),
+    "translate_smbo": ("G:SMBO bookkeeping source translator",
+                       "ast translation (harness/pytrans.py, fail-closed) of the wrappers of SMBO.track_X_sample / track_y_sample and of the "
+                       "bodies of SMBO.evaluate / evaluate_init (smb_opt/smbo.py) into generated/SmboGen.v; the decorator lists of init_pos, "
+                       "iterate, evaluate, evaluate_init are checked; np.isnan / np.isinf / `del X_sample[-1]` pinned by text, _remove_position by "
+                       "digest; proofs/SmboTie.v proves one generated driver step equal to the model's smbo_step"),
     "translate_init": ("G:initializer source translator",
                        "ast translation (harness/pytrans.py, fail-closed) of Initializer.__init__, set_pos, _init_warm_start, _init_random_search, "
                        "_fill_rest_random and add_n_random_init_pos of init_positions.py into generated/InitGen.v (for loops, the nested "
@@ -71,7 +76,7 @@ def g_unit(ctx, modname):
     return u
 
 
-ALL_TRANSLATORS = ["translate_core", "translate_driver", "translate_grid", "translate_search", "translate_memory", "translate_results", "translate_coreopt", "translate_init"]
+ALL_TRANSLATORS = ["translate_core", "translate_driver", "translate_grid", "translate_search", "translate_memory", "translate_results", "translate_coreopt", "translate_init", "translate_smbo"]
 
 
 def refresh_all(ctx):
